@@ -67,6 +67,7 @@ double *arrNewAlloc(int n, int *len);
 int *arrNewPat(int n, int *len);
 int arrSum(const int *arr, int n);
 void charGrow(char *s);
+int charArrLen(char **names, int n);
 Item &refItem();
 std::vector<double> vecRetD(int n);
 
